@@ -141,4 +141,6 @@ def shape_id(shape):
 
 
 VNAMES = ['Alpha', 'Beta', 'Gamma', 'Delta']
-FNAMES = ['x', 'y', 'z', 'w']
+# deliberately not in alphabetical order (a handler that orders fields by name must show), 13 for the wide shapes
+FNAMES = ['y', 'x', 'z', 'w', 'k', 'j', 'v', 'u', 't', 's', 'r', 'q', 'o']
+WIDE = 13    # positions >= 10 sort before 2 as strings
